@@ -55,6 +55,10 @@ func dirName(id string) string { return "g" + nonIdent.ReplaceAllString(id, "_")
 // BuildDrivers generates code for every (grammar, variant) with the REAL gocc
 // built from the working tree, instruments it (yield points, knob), writes the
 // glue and builds one driver binary per grammar.
+// StmtYields makes BuildDrivers insert a yield before every statement of the
+// generated code instead of only at function entries and loop heads.
+var StmtYields bool
+
 func BuildDrivers(g *Gocc, grammars []*corpus.Grammar, variants []Variant, race bool, instrument bool) (*Drivers, error) {
 	d := &Drivers{Dir: filepath.Join(g.Root, "drv"), Race: race}
 	if race {
@@ -181,6 +185,7 @@ func BuildDrivers(g *Gocc, grammars []*corpus.Grammar, variants []Variant, race 
 			RTImport:  DrvModule + "/gsim",
 			StepFunc:  "Yield",
 			StepArg:   true,
+			StmtSteps: StmtYields,
 			KnobConst: "iNITIAL_STACK_SIZE",
 			Env:       scratch.GoEnv(),
 		})
@@ -194,7 +199,7 @@ func BuildDrivers(g *Gocc, grammars []*corpus.Grammar, variants []Variant, race 
 			}
 			if len(d.List) > 0 {
 				c, err = rewrite.Instrument(rewrite.Options{Dir: d.Dir, Patterns: []string{"./gen/..."}, OwnPrefix: DrvModule + "/gen/", RTImport: DrvModule + "/gsim",
-					StepFunc: "Yield", StepArg: true, KnobConst: "iNITIAL_STACK_SIZE", Env: scratch.GoEnv()})
+					StepFunc: "Yield", StepArg: true, StmtSteps: StmtYields, KnobConst: "iNITIAL_STACK_SIZE", Env: scratch.GoEnv()})
 				if err != nil {
 					return nil, fmt.Errorf("WORKLOAD-INVALID: generated code cannot be loaded/instrumented: %v", err)
 				}
